@@ -3,12 +3,11 @@
 (* C17: which PAYLOADS drive a literal-only LZMA encoder, started in the    *)
 (* reset state, into its rare states?  The reference encoder of             *)
 (* RangeCoder.tla is run by TLC over every payload (over Alphabet) of       *)
-(* length <= FullLen, and                                                   *)
-(* beyond that (up to MaxLen) only from states that are about to do         *)
-(* something rare (a pending 0xFF byte exists, the top byte of low is 0xFF, *)
-(* a carry stands in bit 32 over a small low).  A state in which a rare event has just       *)
-(* happened prints its payload (the invariant Report is never false: this   *)
-(* is a reachability query whose answers are the payloads).                 *)
+(* length <= FullLen, and beyond that (up to MaxLen) only from states that  *)
+(* are about to do something rare (the top byte of low is 0xFF, a carry     *)
+(* stands in bit 32 over a small low).  A state in which a rare event has   *)
+(* just happened prints its payload (the invariant Report is never false:   *)
+(* this is a reachability query whose answers are the payloads).            *)
 (*                                                                         *)
 (*   exact32      ShiftLow was called with low = 2^32 exactly               *)
 (*   carry_pend   a carry was propagated into k >= 1 pending 0xFF bytes     *)
